@@ -19,17 +19,202 @@ use serde_json::{json, Value};
 use vharness::{catch, Opts, Out, Prop};
 use zksync_concurrency::{ctx, limiter, time};
 
-/// The per-connection RPC half (filled in below).
+/// The per-connection RPC half: the real `rpc::Service` server (generic `Server::serve`, `StreamQueue`,
+/// `ReusableStream::run`) for a test RPC with in-flight limit N over an in-memory duplex transport, against a
+/// client without a rate limit that opens calls as fast as the protocol lets it. Time is a `ManualClock`; after
+/// every step the single-threaded runtime is run until nothing moves any more, so the observation (handler
+/// invocations so far, handlers running) is deterministic.
+///
+///   {"op":"rpc","inflight":N,"burst":B,"refresh_ns":R,"client_streams":M,"hold_handlers":bool,
+///    "hold_requests":bool,"hold_opens":bool,"steps":[{"adv":ns}|{"rel_h":k}|{"rel_r":k}|{"rel_o":k}, ...]}
 mod rpc_half {
+    use std::sync::{atomic::Ordering, Arc};
+
+    use zksync_concurrency::{scope, sync};
+    use zksync_consensus_network::verif::rpc as hook;
+
     use super::*;
+
     #[derive(Default)]
     pub struct RpcHalf;
-    impl RpcHalf {
-        pub fn gen(&mut self, _opts: &Opts, _rng: &mut StdRng) -> Vec<Value> {
-            vec![]
+
+    async fn quiesce(p: &hook::Probe, c: &hook::ClientProbe) {
+        let snap = || {
+            (p.starts.lock().unwrap().len(), p.done.load(Ordering::SeqCst), c.done.load(Ordering::SeqCst),
+             c.opened.load(Ordering::SeqCst))
+        };
+        let (mut last, mut stable, mut total) = (snap(), 0, 0);
+        while stable < 400 && total < 400_000 {
+            tokio::task::yield_now().await;
+            total += 1;
+            let cur = snap();
+            if cur == last {
+                stable += 1;
+            } else {
+                stable = 0;
+                last = cur;
+            }
         }
-        pub fn exec(&mut self, _op: &Value, _out: &mut Out) -> Value {
-            json!({"r": "rpc_unsupported"})
+    }
+
+    struct Run {
+        starts: Vec<u64>,
+        running: Vec<u64>,
+        times: Vec<u128>,
+        max_running: usize,
+    }
+
+    fn scenario(op: &Value) -> Run {
+        let inflight = op["inflight"].as_u64().expect("inflight");
+        let burst = op["burst"].as_u64().expect("burst") as usize;
+        let refresh = op["refresh_ns"].as_u64().expect("refresh_ns");
+        let streams = op["client_streams"].as_u64().expect("client_streams") as u32;
+        let hold_h = op["hold_handlers"].as_bool().unwrap_or(false);
+        let hold_r = op["hold_requests"].as_bool().unwrap_or(false);
+        let hold_o = op["hold_opens"].as_bool().unwrap_or(false);
+        let steps = op["steps"].as_array().cloned().unwrap_or_default();
+        let rt = tokio::runtime::Builder::new_current_thread().enable_all().build().unwrap();
+        rt.block_on(async {
+            let clock = ctx::ManualClock::new();
+            let root = ctx::test_root(&clock);
+            let rate = limiter::Rate { burst, refresh: time::Duration::nanoseconds(refresh as i64) };
+            let gate = hold_h.then(|| Arc::new(sync::Semaphore::new(0)));
+            let req_gate = hold_r.then(|| Arc::new(sync::Semaphore::new(0)));
+            let probe = Arc::new(hook::Probe { gate: gate.clone(), ..Default::default() });
+            let open_gate = hold_o.then(|| Arc::new(sync::Semaphore::new(0)));
+            let cprobe = Arc::new(hook::ClientProbe { req_gate: req_gate.clone(), open_gate: open_gate.clone(), ..Default::default() });
+            let (a, b) = tokio::io::duplex(1 << 16);
+            let t0 = root.now();
+            let res: anyhow::Result<Run> = scope::run!(&root, |ctx, s| async move {
+                let (p1, c1) = (probe.clone(), cprobe.clone());
+                s.spawn_bg(async move {
+                    let _ = match inflight {
+                        1 => hook::serve::<1, _>(ctx, rate, a, p1).await,
+                        3 => hook::serve::<3, _>(ctx, rate, a, p1).await,
+                        _ => hook::serve::<5, _>(ctx, rate, a, p1).await,
+                    };
+                    Ok(())
+                });
+                s.spawn_bg(async move {
+                    let _ = hook::greedy_client(ctx, b, streams, streams.max(1) as usize, c1).await;
+                    Ok(())
+                });
+                let mut run = Run { starts: vec![], running: vec![], times: vec![], max_running: 0 };
+                quiesce(&probe, &cprobe).await;
+                run.starts.push(probe.starts.lock().unwrap().len() as u64);
+                run.running.push(probe.running.load(Ordering::SeqCst) as u64);
+                for st in &steps {
+                    if let Some(d) = st["adv"].as_u64() {
+                        clock.advance(time::Duration::nanoseconds(d as i64));
+                    } else if let Some(k) = st["rel_h"].as_u64() {
+                        if let Some(g) = &gate {
+                            g.add_permits(k as usize);
+                        }
+                    } else if let Some(k) = st["rel_r"].as_u64() {
+                        if let Some(g) = &req_gate {
+                            g.add_permits(k as usize);
+                        }
+                    } else if let Some(k) = st["rel_o"].as_u64() {
+                        if let Some(g) = &open_gate {
+                            g.add_permits(k as usize);
+                        }
+                    }
+                    quiesce(&probe, &cprobe).await;
+                    run.starts.push(probe.starts.lock().unwrap().len() as u64);
+                    run.running.push(probe.running.load(Ordering::SeqCst) as u64);
+                }
+                run.times = probe.starts.lock().unwrap().iter().map(|t| (*t - t0).whole_nanoseconds() as u128).collect();
+                run.max_running = probe.max_running.load(Ordering::SeqCst);
+                Ok(run)
+            })
+            .await;
+            res.expect("scenario")
+        })
+    }
+
+    impl RpcHalf {
+        pub fn gen(&mut self, opts: &Opts, rng: &mut StdRng) -> Vec<Value> {
+            let count = if opts.thorough { 800 } else { 48 };
+            let mut ops = vec![];
+            for i in 0..count {
+                let inflight = *[1u64, 3, 5].choose(rng).unwrap();
+                let burst = rng.gen_range(1..=4u64);
+                let refresh = *[10_000_000u64, 100_000_000, 1_000_000_000, 7].choose(rng).unwrap();
+                let streams = match rng.gen_range(0..4) {
+                    0 => inflight,
+                    1 => inflight + 2,
+                    2 => 16,
+                    _ => rng.gen_range(1..=inflight),
+                };
+                let (hold_h, hold_r, hold_o) = match i % 4 {
+                    0 => (false, false, false),
+                    1 => (true, false, false),
+                    2 => (false, true, false),
+                    _ => (false, false, true),
+                };
+                let mut steps = vec![];
+                for _ in 0..rng.gen_range(5..=9) {
+                    let adv = |rng: &mut StdRng| {
+                        let d = match rng.gen_range(0..7) {
+                            0 => 0,
+                            1 => refresh / 2,
+                            2 => refresh - 1,
+                            3 => refresh,
+                            4 => refresh + 1,
+                            5 => 3 * refresh,
+                            _ => refresh * (burst + inflight + 1),
+                        };
+                        json!({"adv": d})
+                    };
+                    let st = if hold_h && rng.gen_bool(0.4) {
+                        json!({"rel_h": rng.gen_range(1..=inflight + 1)})
+                    } else if hold_r && rng.gen_bool(0.4) {
+                        json!({"rel_r": rng.gen_range(1..=inflight + 1)})
+                    } else if hold_o && rng.gen_bool(0.45) {
+                        json!({"rel_o": rng.gen_range(1..=burst + 1)})
+                    } else {
+                        adv(rng)
+                    };
+                    steps.push(st);
+                }
+                ops.push(json!({"op": "rpc", "inflight": inflight, "burst": burst, "refresh_ns": refresh,
+                    "client_streams": streams, "hold_handlers": hold_h, "hold_requests": hold_r, "hold_opens": hold_o, "steps": steps,
+                    "reset": true}));
+            }
+            ops
+        }
+
+        pub fn exec(&mut self, op: &Value, out: &mut Out) -> Value {
+            out.count("rpc");
+            let run = match catch(|| scenario(op)) {
+                Ok(r) => r,
+                Err(site) => {
+                    out.oracle_fail(&site, "rpc scenario panicked", op.clone());
+                    return json!({"panic": site});
+                }
+            };
+            let inflight = op["inflight"].as_u64().unwrap() as u128;
+            let n = inflight.min(op["client_streams"].as_u64().unwrap() as u128);
+            let burst = op["burst"].as_u64().unwrap() as u128;
+            let refresh = op["refresh_ns"].as_u64().unwrap() as u128;
+            let hold_r = op["hold_requests"].as_bool().unwrap_or(false);
+            // S: in-flight cap
+            if run.max_running as u128 > inflight {
+                out.oracle_fail("rpc_inflight", &format!("{} handlers ran concurrently, INFLIGHT = {inflight}", run.max_running), op.clone());
+            }
+            // S: requests started within any window (the tighter bound when requests follow the OPEN at once)
+            let extra = if hold_r { n } else { 0 };
+            'outer: for j in 0..run.times.len() {
+                for i in 0..=j {
+                    let cnt = (j - i + 1) as u128;
+                    let bound = extra + burst + (run.times[j] - run.times[i]) / refresh + 1;
+                    if cnt > bound {
+                        out.oracle_fail("rpc_window", &format!("{cnt} requests started in [{}, {}] ns > {bound}", run.times[i], run.times[j]), op.clone());
+                        break 'outer;
+                    }
+                }
+            }
+            json!({"class": "rpc", "starts": run.starts, "running": run.running})
         }
     }
 }
@@ -676,7 +861,7 @@ impl C15 {
             return match catch(|| Case::new(b, s, n)) {
                 Ok(c) => {
                     self.case = Some(c);
-                    json!({"r": "init"})
+                    json!({"r": "init", "class": "init"})
                 }
                 Err(site) => {
                     out.oracle_fail(&site, "Limiter::new panicked", op.clone());
@@ -688,15 +873,16 @@ impl C15 {
         let Some(case) = self.case.as_mut() else { return json!({"r": "no_case"}) };
         out.count(op["op"].as_str().unwrap_or("?"));
         let r = catch(|| case.exec(op));
-        let obs = match r {
+        let mut obs = match r {
             Ok(v) => v,
             Err(site) => {
                 case.fails.push((site.clone(), "limiter operation panicked".into()));
                 json!({"panic": site})
             }
         };
-        if let Some(r) = obs["r"].as_str() {
+        if let Some(r) = obs["r"].as_str().map(|s| s.to_string()) {
             out.count(&format!("result={r}"));
+            obs["class"] = json!(r);
         }
         for (site, what) in std::mem::take(&mut case.fails) {
             out.oracle_fail(&site, &what, json!({"op": "case", "ops": self.case_ops.clone()}));
@@ -744,7 +930,7 @@ impl Prop for C15 {
             for sub in op["ops"].as_array().cloned().unwrap_or_default() {
                 res.push(self.exec_lim(&sub, out));
             }
-            return json!({"r": "case", "res": res});
+            return json!({"r": "case", "class": "case", "res": res});
         }
         self.exec_lim(op, out)
     }
